@@ -46,7 +46,7 @@ def shapes(S, desig):
         # components: atoms, and (for the truth-functional operators) negated atoms -- a rule that un-negates a component
         # where it should negate it is exact on atoms but not where double negation is not the identity (G3, P3)
         variants = [(A, B)]
-        if not modal and oname != 'Negation':
+        if oname != 'Negation':
             variants += [(syn.neg(A), B), (A, syn.neg(B)), (syn.neg(A), syn.neg(B))] if arity == 2 else [(syn.neg(A), B)]
         for ca, cb in variants:
             body = syn.op(oname, ca) if arity == 1 else syn.op(oname, ca, cb)
@@ -58,11 +58,14 @@ def shapes(S, desig):
                     yield ('modal' if modal else 'oper'), s, d
     if S.quantified:
         for q in syn.QUANTIFIERS:
-            body = syn.quant(q, x, Fx)
-            for negated in (False, True):
-                s = syn.neg(body) if negated else body
-                for d in ds:
-                    yield 'quant', s, d
+            # the quantified body an atom-like predication, and its negation (an instantiation rule that un-negates
+            # instead of negating is exact only where double negation is the identity)
+            for inner in (Fx, syn.neg(Fx)):
+                body = syn.quant(q, x, inner)
+                for negated in (False, True):
+                    s = syn.neg(body) if negated else body
+                    for d in ds:
+                        yield 'quant', s, d
 
 
 def units(tier, seed):
